@@ -558,8 +558,10 @@ pub fn platt_spec() -> BuilderSpec {
                     (Sym::L(-1e10), "far_below", I, false),
                     (Sym::NegTiny, "just_below", I, false),
                     (Sym::NegZero, "neg_zero", U, false),
-                    // minstep = 0: the halving line search only ends when a step is accepted
-                    (Sym::L(0.0), "zero", U, false),
+                    // minstep = 0 passes the guard, but then the halving line search `while stepsize >= minstep`
+                    // (platt_scaling.rs:322) can only end when a step is accepted: with f32 and sigma = 1e10 it
+                    // never returns (observed) -> verdict oracles only, no training call
+                    (Sym::L(0.0), "zero", U, true),
                     (Sym::Tiny, "just_inside", V, false),
                     (Sym::L(1e-10), "inside", V, false),
                     (Sym::L(10.0), "far_inside", V, false),
